@@ -234,8 +234,7 @@ theorem hostGroup_append_some (rest q v : Bytes) (h : hostGroup rest = some v) :
 theorem hostGroup_append_flip (rest q : Bytes) (h0 : hostGroup rest = none) (h1 : hostGroup (rest ++ q) ≠ none) :
     LF ∉ rest := by
   by_cases hs : startsCI hostLit rest = true
-  · have hlen : 5 ≤ rest.length := by simpa [hostLit] using startsCI_length hostLit rest hs
-    cases hl : lineUpToLF (stripL (List.drop 5 rest)) with
+  · cases hl : lineUpToLF (stripL (List.drop 5 rest)) with
     | none =>
       have h5 : LF ∉ List.drop 5 rest := lf_not_mem_of_stripL _ (lineUpToLF_none _ hl)
       intro hm
@@ -249,15 +248,7 @@ theorem hostGroup_append_flip (rest q : Bytes) (h0 : hostGroup rest = none) (h1 
       · exact h5 e
     | some l =>
       exfalso
-      have hne : stripL (List.drop 5 rest) ≠ [] := by
-        intro e; rw [e] at hl; simp [lineUpToLF] at hl
-      apply h1
-      unfold hostGroup at h0 ⊢
-      simp only [hs, if_true, hl] at h0
-      rw [startsCI_append_true hostLit rest q hs]
-      simp only [if_true]
-      rw [List.drop_append_of_le_length hlen, stripL_append_of_ne _ q hne, lineUpToLF_append_some _ q l hl]
-      simpa using h0
+      simp [hostGroup, hs, hl] at h0
   · have hs0 : startsCI hostLit rest = false := by simpa using hs
     cases hq : startsCI hostLit (rest ++ q) with
     | false => exfalso; apply h1; simp [hostGroup, hq]
@@ -269,24 +260,25 @@ theorem scan_no_lf (d : Bytes) (h : LF ∉ d) : scan d = .needMore := by
   induction d with
   | nil => rfl
   | cons a tl ih =>
+    have ha : a ≠ LF := fun e => h (by simp [e])
     have htl : LF ∉ tl := fun hm => h (List.mem_cons_of_mem _ hm)
-    simp only [scan]
-    split
-    · cases tl with
-      | nil => rfl
-      | cons b rest =>
-        have hb : b ≠ LF := fun e => h (by simp [e])
-        simp [hb, ih htl]
-    · exact ih htl
+    simp [scan, ha, ih htl]
 
-theorem scan_lf_cons_no_lf (rest : Bytes) (h : LF ∉ rest) : scan (LF :: rest) = .needMore := by
-  simp only [scan]
-  have : LF ≠ CR := by decide
-  simp [this, scan_no_lf rest h]
-
-theorem startsCRLF_append_true (d q : Bytes) (h : startsCRLF d = true) : startsCRLF (d ++ q) = true := by
-  match d, h with
-  | a :: b :: r, h => simpa [startsCRLF] using h
+/-- a blank line stays a blank line, and is never a Host field -/
+theorem startsEOL_append (tl q : Bytes) (h : startsEOL tl = true) :
+    startsEOL (tl ++ q) = true ∧ hostGroup (tl ++ q) = none := by
+  match tl, h with
+  | [a], h =>
+    simp only [startsEOL, Bool.or_eq_true, decide_eq_true_eq, Bool.and_eq_true] at h
+    rcases h with h | h
+    · subst h; cases q <;> simp [startsEOL, hostGroup, startsCI, hostLit, asciiLowerB, LF]
+    · simp at h
+  | a :: b :: r, h =>
+    simp only [startsEOL, Bool.or_eq_true, decide_eq_true_eq, Bool.and_eq_true] at h
+    rcases h with h | h
+    · subst h; simp [startsEOL, hostGroup, startsCI, hostLit, asciiLowerB, LF]
+    · obtain ⟨h1, h2⟩ := h; subst h1; subst h2
+      simp [startsEOL, hostGroup, startsCI, hostLit, asciiLowerB, LF, CR]
 
 /-- **prefix stability of the header scan**: a match found in the data so far is the match in any extension -/
 theorem scan_append (p q : Bytes) (r : Option Bytes) (h : scan p = .ok r) : scan (p ++ q) = .ok r := by
@@ -294,54 +286,39 @@ theorem scan_append (p q : Bytes) (r : Option Bytes) (h : scan p = .ok r) : scan
   | nil => simp [scan] at h
   | cons a tl ih =>
     simp only [scan, List.cons_append] at h ⊢
-    by_cases ha : a = CR
+    by_cases ha : a = LF
     · simp only [ha, if_true] at h ⊢
-      cases tl with
-      | nil => simp at h
-      | cons b rest =>
-        simp only [List.cons_append] at h ⊢
-        by_cases hb : b = LF
-        · simp only [hb, if_true] at h ⊢
-          subst hb
-          cases hg : hostGroup rest with
-          | some v =>
-            simp only [hg] at h
-            simp only [hostGroup_append_some rest q v hg]
-            exact h
-          | none =>
-            simp only [hg] at h
-            by_cases hc : startsCRLF rest = true
-            · simp only [hc, if_true] at h
-              have hg' : hostGroup (rest ++ q) = none := by
-                match rest, hc with
-                | x :: y :: r', hc =>
-                  simp only [startsCRLF, Bool.and_eq_true, decide_eq_true_eq] at hc
-                  simp [hostGroup, startsCI, hostLit, hc.1, asciiLowerB, CR]
-              simp only [hg', startsCRLF_append_true rest q hc, if_true]
-              exact h
-            · simp only [hc] at h
-              have hlf : LF ∈ rest := by
-                apply Classical.byContradiction
-                intro hn
-                rw [scan_lf_cons_no_lf rest hn] at h
-                cases h
-              have hg' : hostGroup (rest ++ q) = none := by
-                cases hq : hostGroup (rest ++ q) with
-                | none => rfl
-                | some v => exact absurd hlf (hostGroup_append_flip rest q hg (by simp [hq]))
-              have hc' : startsCRLF (rest ++ q) = false := by
-                match rest, hc, hlf with
-                | [x], _, hlf =>
-                  simp only [List.mem_cons, List.mem_nil_iff, or_false] at hlf
-                  subst hlf
-                  cases q <;> simp [startsCRLF, LF, CR]
-                | x :: y :: r', hc, _ => simpa [startsCRLF] using hc
-              simp only [hg', hc']
-              have := ih h
-              simpa using this
-        · simp only [hb, if_false] at h ⊢
-          have := ih h
-          simpa using this
+      cases hg : hostGroup tl with
+      | some v =>
+        simp only [hg] at h
+        simp only [hostGroup_append_some tl q v hg]
+        exact h
+      | none =>
+        simp only [hg] at h
+        by_cases hc : startsEOL tl = true
+        · simp only [hc, if_true] at h
+          obtain ⟨h1, h2⟩ := startsEOL_append tl q hc
+          simp only [h1, h2, if_true]
+          exact h
+        · simp only [hc] at h
+          have hlf : LF ∈ tl := by
+            apply Classical.byContradiction
+            intro hn
+            rw [scan_no_lf tl hn] at h
+            cases h
+          have hg' : hostGroup (tl ++ q) = none := by
+            cases hq : hostGroup (tl ++ q) with
+            | none => rfl
+            | some v => exact absurd hlf (hostGroup_append_flip tl q hg (by simp [hq]))
+          have hc' : startsEOL (tl ++ q) = false := by
+            match tl, hc, hlf with
+            | [x], hc, hlf =>
+              simp only [List.mem_cons, List.mem_nil_iff, or_false] at hlf
+              subst hlf
+              simp [startsEOL] at hc
+            | x :: y :: r', hc, _ => simpa [startsEOL] using hc
+          simp only [hg', hc']
+          exact ih h
     · simp only [ha, if_false] at h ⊢
       exact ih h
 
@@ -362,27 +339,36 @@ theorem hostHeader_append (tcp : Bool) (p q ds : Bytes) (r : Option Bytes) (hp :
 
 /-! ## the scanner on well-formed heads = the RFC field syntax -/
 
-/-- what `scan` does when it stands right behind a CRLF -/
+/-- what `scan` does when it stands right behind a line terminator -/
 def atLine (rest : Bytes) : Res (Option Bytes) :=
   match hostGroup rest with
   | some v => .ok (if v.isEmpty then none else some v)
-  | none => if startsCRLF rest then .ok none else scan (LF :: rest)
+  | none => if startsEOL rest then .ok none else scan rest
 
-theorem scan_skip (l rest : Bytes) (h : CR ∉ l) : scan (l ++ CR :: LF :: rest) = atLine rest := by
+theorem scan_skip (l rest : Bytes) (h : LF ∉ l) : scan (l ++ LF :: rest) = atLine rest := by
   induction l with
   | nil =>
-    show scan (CR :: LF :: rest) = atLine rest
+    show scan (LF :: rest) = atLine rest
     rw [scan]
     rfl
   | cons a tl ih =>
-    have ha : a ≠ CR := fun e => h (by simp [e])
-    have ht : CR ∉ tl := fun hm => h (List.mem_cons_of_mem _ hm)
+    have ha : a ≠ LF := fun e => h (by simp [e])
+    have ht : LF ∉ tl := fun hm => h (List.mem_cons_of_mem _ hm)
     simp only [List.cons_append, scan, ha, if_false]
     exact ih ht
 
-theorem scan_lf (rest : Bytes) : scan (LF :: rest) = scan rest := by
-  have : LF ≠ CR := by decide
-  simp [scan, this]
+/-- the same behind either terminator: a CR in front of the LF is absorbed -/
+theorem scan_skip_eol (lf : Bool) (l rest : Bytes) (h : LF ∉ l) : scan (l ++ (eol lf ++ rest)) = atLine rest := by
+  cases lf with
+  | true => simpa [eol] using scan_skip l rest h
+  | false =>
+    have h' : LF ∉ l ++ [CR] := by
+      intro hm
+      rcases List.mem_append.mp hm with e | e
+      · exact h e
+      · simp [CR, LF] at e
+    have := scan_skip (l ++ [CR]) rest h'
+    simpa [eol, List.append_assoc] using this
 
 theorem stripL_ows_append (o r : Bytes) (h : ∀ b ∈ o, isOWS b = true) : stripL (o ++ r) = stripL r := by
   induction o with
@@ -400,8 +386,26 @@ theorem lineUpToLF_exact (l rest : Bytes) (h : LF ∉ l) : lineUpToLF (l ++ LF :
     have ht : LF ∉ tl := fun hm => h (List.mem_cons_of_mem _ hm)
     simp [lineUpToLF, ha, ih ht]
 
-theorem chopCR_snoc (l : Bytes) : chopCR (l ++ [CR]) = some l := by
+theorem chopCR_snoc (l : Bytes) : chopCR (l ++ [CR]) = l := by
   simp [chopCR]
+
+theorem getLast?_mem (x : Bytes) (c : UInt8) (h : x.getLast? = some c) : c ∈ x := by
+  induction x with
+  | nil => simp at h
+  | cons a tl ih =>
+    cases tl with
+    | nil => simp at h; simp [h]
+    | cons b t =>
+      rw [List.getLast?_cons_cons] at h
+      exact List.mem_cons_of_mem _ (ih h)
+
+theorem chopCR_id (x : Bytes) (h : CR ∉ x) : chopCR x = x := by
+  unfold chopCR
+  cases hl : x.getLast? with
+  | none => rfl
+  | some c =>
+    have : c ≠ CR := fun e => h (e ▸ getLast?_mem x c hl)
+    simp [this]
 
 theorem stripR_value (v o : Bytes) (ho : ∀ b ∈ o, isOWS b = true)
     (hv : ∀ b, v.getLast? = some b → isOWS b = false) : stripR (v ++ o) = v := by
@@ -444,6 +448,17 @@ theorem body_no_cr (f : Field) (hw : f.WF) : CR ∉ f.body := by
   · exact (hv _ hm).1 rfl
   · exact (ows_facts _ (h2 _ hm)).1 rfl
 
+theorem body_no_lf (f : Field) (hw : f.WF) : LF ∉ f.body := by
+  obtain ⟨_, hn, h1, h2, hv, _, _⟩ := hw
+  intro hm
+  simp only [Field.body, List.mem_append, List.mem_cons] at hm
+  rcases hm with hm | hm | (hm | hm) | hm
+  · exact (tchar_facts _ (hn _ hm)).2.1 rfl
+  · exact absurd hm (by decide)
+  · exact (ows_facts _ (h1 _ hm)).2 rfl
+  · exact (hv _ hm).2 rfl
+  · exact (ows_facts _ (h2 _ hm)).2 rfl
+
 theorem lowerB_colon : asciiLowerB colon = colon := by decide
 
 theorem lowerB_ne_colon (b : UInt8) (h : b ≠ colon) : asciiLowerB b ≠ colon := by
@@ -468,87 +483,94 @@ theorem startsCI_host_name (n r : Bytes) (hn : ∀ b ∈ n, isTchar b = true) :
     simp [startsCI, hostLit, isHostName, he]
 
 theorem hostGroup_other (f : Field) (hw : f.WF) (hn : isHostName f.name = false) (z : Bytes) :
-    hostGroup (f.render ++ z) = none := by
-  have hs : startsCI hostLit (f.render ++ z) = false := by
-    have := startsCI_host_name f.name (f.ows1 ++ f.value ++ f.ows2 ++ [CR, LF] ++ z) hw.2.1
+    hostGroup (f.body ++ z) = none := by
+  have hs : startsCI hostLit (f.body ++ z) = false := by
+    have := startsCI_host_name f.name (f.ows1 ++ f.value ++ f.ows2 ++ z) hw.2.1
     rw [hn] at this
-    simpa [Field.render, Field.body] using this
+    simpa [Field.body] using this
   simp [hostGroup, hs]
 
-theorem startsCRLF_cons_ne (a : UInt8) (l : Bytes) (ha : a ≠ CR) : startsCRLF (a :: l) = false := by
-  cases l <;> simp [startsCRLF, ha]
+theorem startsEOL_cons_ne (a : UInt8) (l : Bytes) (h1 : a ≠ LF) (h2 : a ≠ CR) : startsEOL (a :: l) = false := by
+  simp [startsEOL, h1, h2]
 
-theorem startsCRLF_field (f : Field) (hw : f.WF) (z : Bytes) : startsCRLF (f.render ++ z) = false := by
+theorem startsEOL_field (f : Field) (hw : f.WF) (z : Bytes) : startsEOL (f.body ++ z) = false := by
   obtain ⟨hne, hn, _⟩ := hw
   cases hname : f.name with
   | nil => exact absurd hname hne
   | cons a t =>
-    have ha : a ≠ CR := (tchar_facts a (hn a (by simp [hname]))).1
-    simp only [Field.render, Field.body, hname, List.cons_append]
-    exact startsCRLF_cons_ne a _ ha
+    have ha := tchar_facts a (hn a (by simp [hname]))
+    simp only [Field.body, hname, List.cons_append]
+    exact startsEOL_cons_ne a _ ha.2.1 ha.1
 
-theorem hostGroup_host (f : Field) (hw : f.WF) (hn : isHostName f.name = true) (z : Bytes) :
-    hostGroup (f.render ++ z) = some f.value := by
+theorem hostGroup_host (f : Field) (hw : f.WF) (hn : isHostName f.name = true) (lf : Bool) (z : Bytes) :
+    hostGroup (f.body ++ (eol lf ++ z)) = some f.value := by
   obtain ⟨_, hname, h1, h2, hv, hhead, hlast⟩ := hw
-  have hs := startsCI_host_name f.name (f.ows1 ++ f.value ++ f.ows2 ++ [CR, LF] ++ z) hname
+  have hs := startsCI_host_name f.name (f.ows1 ++ f.value ++ f.ows2 ++ (eol lf ++ z)) hname
   have hlen : f.name.length = 4 := by
     simp only [isHostName, Bool.and_eq_true, beq_iff_eq] at hn
     exact hn.2
-  have hdrop : List.drop 5 (f.render ++ z) = f.ows1 ++ (f.value ++ (f.ows2 ++ CR :: LF :: z)) := by
+  have hdrop : List.drop 5 (f.body ++ (eol lf ++ z)) = f.ows1 ++ (f.value ++ (f.ows2 ++ (eol lf ++ z))) := by
     match hnm : f.name, hlen with
-    | [a, b, c, d], _ => simp [Field.render, Field.body, hnm]
+    | [a, b, c, d], _ => simp [Field.body, hnm]
   unfold hostGroup
-  have hs' : startsCI hostLit (f.render ++ z) = true := by
-    simp only [Field.render, Field.body, List.append_assoc, List.cons_append] at hs ⊢
+  have hs' : startsCI hostLit (f.body ++ (eol lf ++ z)) = true := by
+    simp only [Field.body, List.append_assoc, List.cons_append] at hs ⊢
     rw [hs, hn]
   rw [hs', hdrop, if_pos rfl, stripL_ows_append _ _ h1]
+  have heol : stripL (eol lf ++ z) = eol lf ++ z := by
+    cases lf <;> simp [eol, stripL, isOWS, CR, LF]
   cases hval : f.value with
   | nil =>
-    have : stripL (f.ows2 ++ CR :: LF :: z) = CR :: LF :: z := by
-      rw [stripL_ows_append _ _ h2]
-      simp [stripL, isOWS, CR]
-    simp only [List.nil_append, this]
-    simp [lineUpToLF, CR, LF, chopCR, stripR]
+    simp only [List.nil_append]
+    rw [stripL_ows_append _ _ h2, heol]
+    cases lf <;> simp [eol, lineUpToLF, CR, LF, chopCR, stripR]
   | cons v0 vs =>
     have hv0 : isOWS v0 = false := hhead v0 (by simp [hval])
-    have hst : stripL (v0 :: vs ++ (f.ows2 ++ CR :: LF :: z)) = v0 :: vs ++ (f.ows2 ++ CR :: LF :: z) := by
+    have hst : stripL (v0 :: vs ++ (f.ows2 ++ (eol lf ++ z))) = v0 :: vs ++ (f.ows2 ++ (eol lf ++ z)) := by
       simp [stripL, hv0]
     rw [hst]
-    have hline : v0 :: vs ++ (f.ows2 ++ CR :: LF :: z) = ((v0 :: vs) ++ f.ows2 ++ [CR]) ++ LF :: z := by simp
-    have hnolf : LF ∉ (v0 :: vs) ++ f.ows2 ++ [CR] := by
-      intro hm
-      simp only [List.mem_append, List.mem_cons, List.mem_nil_iff, or_false] at hm
-      rcases hm with (hm | hm) | hm
-      · exact (hv LF (by rw [hval]; simpa using hm)).2 rfl
-      · exact (ows_facts _ (h2 _ hm)).2 rfl
-      · exact absurd hm (by decide)
-    rw [hline, lineUpToLF_exact _ _ hnolf]
-    show Option.map stripR (chopCR (v0 :: vs ++ f.ows2 ++ [CR])) = some (v0 :: vs)
-    rw [chopCR_snoc]
-    simp only [Option.map_some]
-    rw [stripR_value (v0 :: vs) f.ows2 h2 (by rw [← hval]; exact hlast)]
+    have hnocrlf : CR ∉ (v0 :: vs) ++ f.ows2 ∧ LF ∉ (v0 :: vs) ++ f.ows2 := by
+      constructor <;> intro hm <;> rcases List.mem_append.mp hm with e | e
+      · exact (hv _ (by rw [hval]; exact e)).1 rfl
+      · exact (ows_facts _ (h2 _ e)).1 rfl
+      · exact (hv _ (by rw [hval]; exact e)).2 rfl
+      · exact (ows_facts _ (h2 _ e)).2 rfl
+    cases lf with
+    | true =>
+      have hline : v0 :: vs ++ (f.ows2 ++ (eol true ++ z)) = ((v0 :: vs) ++ f.ows2) ++ LF :: z := by simp [eol]
+      rw [hline, lineUpToLF_exact _ _ hnocrlf.2]
+      show some (stripR (chopCR (v0 :: vs ++ f.ows2))) = some (v0 :: vs)
+      rw [chopCR_id _ hnocrlf.1, stripR_value (v0 :: vs) f.ows2 h2 (by rw [← hval]; exact hlast)]
+    | false =>
+      have hline : v0 :: vs ++ (f.ows2 ++ (eol false ++ z)) = ((v0 :: vs) ++ f.ows2 ++ [CR]) ++ LF :: z := by simp [eol]
+      have hnolf : LF ∉ (v0 :: vs) ++ f.ows2 ++ [CR] := by
+        intro hm
+        rcases List.mem_append.mp hm with e | e
+        · exact hnocrlf.2 e
+        · simp [CR, LF] at e
+      rw [hline, lineUpToLF_exact _ _ hnolf]
+      show some (stripR (chopCR (v0 :: vs ++ f.ows2 ++ [CR]))) = some (v0 :: vs)
+      rw [chopCR_snoc, stripR_value (v0 :: vs) f.ows2 h2 (by rw [← hval]; exact hlast)]
 
-/-- the scan standing behind a CRLF in front of well-formed field lines and the closing CRLF reads the first Host field -/
-theorem atLine_fields (fs : List Field) (hw : ∀ f ∈ fs, f.WF) (z : Bytes) :
-    atLine (fs.flatMap Field.render ++ CR :: LF :: z) = .ok (specHost fs) := by
+/-- the scan standing behind a line terminator in front of well-formed field lines — each ended by CRLF or by a bare LF,
+    in any mixture — and the blank line reads the FIRST Host field -/
+theorem atLine_fields (fs : List (Field × Bool)) (hw : ∀ p ∈ fs, p.1.WF) (endLf : Bool) (z : Bytes) :
+    atLine (fs.flatMap (fun p => p.1.body ++ eol p.2) ++ (eol endLf ++ z)) = .ok (specHost (fs.map (·.1))) := by
   induction fs with
   | nil =>
-    simp [atLine, hostGroup, startsCI, hostLit, asciiLowerB, CR, startsCRLF, specHost]
-  | cons f fs ih =>
-    have hf : f.WF := hw f (by simp)
-    have hrest : ∀ g ∈ fs, g.WF := fun g hg => hw g (List.mem_cons_of_mem _ hg)
-    simp only [List.flatMap_cons, List.append_assoc]
+    cases endLf <;> simp [atLine, eol, hostGroup, startsCI, hostLit, asciiLowerB, CR, LF, startsEOL, specHost]
+  | cons p fs ih =>
+    obtain ⟨f, lf⟩ := p
+    have hf : f.WF := hw (f, lf) (by simp)
+    have hrest : ∀ g ∈ fs, g.1.WF := fun g hg => hw g (List.mem_cons_of_mem _ hg)
+    simp only [List.flatMap_cons, List.append_assoc, List.map_cons]
     cases hn : isHostName f.name with
     | true =>
-      simp only [atLine, hostGroup_host f hf hn, specHost, hn, if_true]
+      simp only [atLine, hostGroup_host f hf hn lf, specHost, hn, if_true]
     | false =>
-      simp only [atLine, hostGroup_other f hf hn, startsCRLF_field f hf, specHost, hn]
-      rw [scan_lf]
-      have : f.render ++ (List.flatMap Field.render fs ++ CR :: LF :: z)
-          = f.body ++ CR :: LF :: (List.flatMap Field.render fs ++ CR :: LF :: z) := by
-        simp [Field.render]
-      rw [this, scan_skip _ _ (body_no_cr f hf)]
-      simpa using ih hrest
+      simp only [atLine, hostGroup_other f hf hn, startsEOL_field f hf, specHost, hn]
+      rw [scan_skip_eol lf _ _ (body_no_lf f hf)]
+      simpa [List.append_assoc] using ih hrest
 
 /-! ## structured request lines -/
 
